@@ -333,6 +333,22 @@ def rule_p_pre(prog, res):
                                     ok = True
                 res.ob("P-pre", "consume_bits site in %s is guarded by len(par.data()) >= n and advances by 8*n" % p, ok, d, {"file": f.loc["file"], "line": t["line"]})
     res.floor("P-pre", "Parser/Assembler construction sites", n, 2)
+    # the cursor fields are stored only by parse / consume_bits / put (and initialised by new)
+    writers = set()
+    for p, f in sorted(prog.fns.items()):
+        for ai in range(1, f.argc + 1):
+            ty = f.locals[ai]
+            if ty.get("k") == "ref" and ty["mut"] and ty["to"].get("k") == "adt" and ty["to"]["path"] in ("df::parser::Parser", "df::assembler::Assembler"):
+                adt = prog.adts[ty["to"]["path"]]
+                ioff = [x["name"] for x in adt["variants"][0]["fields"]].index("offset")
+                for blk in f.blocks:
+                    for s in blk["stmts"]:
+                        if s["k"] == "assign" and s["place"]["local"] == ai and len(s["place"]["proj"]) == 2 and s["place"]["proj"][0]["k"] == "deref" \
+                                and s["place"]["proj"][1]["k"] == "field" and s["place"]["proj"][1]["i"] == ioff:
+                            writers.add(p)
+    allowed = {"df::parser::Parser::parse", "df::parser::Parser::consume_bits", "df::assembler::Assembler::put"}
+    res.ob("P-pre", "cursor stores | Parser.offset / Assembler.offset are written only by parse, consume_bits and put", writers <= allowed and len(writers) >= 2,
+           "writers: %s" % sorted(writers), sample=sorted(writers))
     # MessageFrame.data is at most 1023 bytes: data = fd[3..L+3] with L a 10-bit value
     f = prog.fn("message_frame::MessageFrame::new")
     if f is None:
